@@ -9,11 +9,17 @@
 //! `&Event<&dyn ErasedProps>` at the node boundary. Stream `c01_static` runs fully statically typed fixtures
 //! (no narrowing anywhere) through the same observations.
 //!
+//! Library leaf filters (`emit::level::{min_filter, MinLevelPathMap}`, `emit::kind::{is_span_filter,
+//! is_metric_filter, KindFilter::new}`) sit in the filter trees next to the recording user leaves, and the
+//! static call sites of sites.rs emit through `emit::debug!/info!/warn!/error!`, the `*_evt!` macros with
+//! `emit::emit!(evt: e)`, and the level span macros (`#[emit::warn_span]`, `emit::new_error_span!`, …, with and
+//! without `when:` / `mdl:`).
+//!
 //! Case format and output format: see lean/EmitModel/Driver/C01.lean.
 
 use std::cell::RefCell;
 use std::ops::ControlFlow;
-use std::sync::Arc;
+use std::sync::{Arc, Mutex};
 use std::time::Duration;
 
 use emit::and::And;
@@ -25,13 +31,18 @@ use emit::or::Or;
 use emit::props::ErasedProps;
 use emit::runtime::{AmbientSlot, AssertInternal, Runtime};
 use emit::value::ToValue;
-use emit::{Clock, Ctxt, Emitter, Empty, Event, Extent, Filter, Path, Props, Str, Template, Timestamp, Value};
+use emit::{Clock, Ctxt, Emitter, Empty, Event, Extent, Filter, Level, Path, Props, Str, Template, Timestamp, Value};
 use hcommon::{hex, Rng, Sexp, Stream, Tier};
+
+mod sites;
 
 pub fn streams() -> Vec<Stream> {
     vec![
         Stream { name: "c01", gen: gen_c01, run: run_c01 },
         Stream { name: "c01_static", gen: gen_static, run: run_static },
+        // C17's share of this file: only the level-macro call sites, against level filters (same case grammar,
+        // same runner, same model function)
+        Stream { name: "c17_macro", gen: gen_c17_macro, run: run_c01 },
     ]
 }
 
@@ -41,6 +52,19 @@ pub fn streams() -> Vec<Stream> {
 pub enum V {
     I(i64),
     S(String),
+    /// a typed `emit::Level` (what the level macros attach under `lvl`)
+    L(Level),
+    /// a `Display`-only value (how a frame of `TestCtxt` keeps kinds and ids it was handed)
+    D(Shown),
+}
+
+#[derive(Clone, Debug, PartialEq)]
+pub struct Shown(pub String);
+
+impl std::fmt::Display for Shown {
+    fn fmt(&self, f: &mut std::fmt::Formatter) -> std::fmt::Result {
+        f.write_str(&self.0)
+    }
 }
 
 impl ToValue for V {
@@ -48,7 +72,22 @@ impl ToValue for V {
         match self {
             V::I(i) => Value::from(*i),
             V::S(s) => Value::from(s.as_str()),
+            V::L(l) => l.to_value(),
+            V::D(s) => Value::capture_display(s),
         }
+    }
+}
+
+/// What a frame keeps of a value it is handed (a buffered copy that still reads the same).
+fn capture_v(v: &Value) -> V {
+    if let Some(s) = v.to_cow_str() {
+        V::S(s.into_owned())
+    } else if let Some(i) = v.by_ref().cast::<i64>() {
+        V::I(i)
+    } else if let Some(l) = v.downcast_ref::<Level>() {
+        V::L(*l)
+    } else {
+        V::D(Shown(v.to_string()))
     }
 }
 
@@ -70,6 +109,8 @@ fn render_v(v: &V) -> String {
     match v {
         V::I(i) => format!("i{}", i),
         V::S(s) => format!("s{}", hex(s.as_bytes())),
+        V::L(l) => format!("?{}", l),
+        V::D(s) => format!("?{}", s),
     }
 }
 
@@ -191,8 +232,19 @@ fn render_flush(r: bool, log: &[Ob]) -> String {
 
 /// Oracle: with positional (unique) leaf numbers, one emission may reach an emitter leaf at most once.
 fn delivered_twice(log: &[Ob]) -> bool {
-    let mut seen = std::collections::HashSet::new();
-    log.iter().any(|o| matches!(o, Ob::E(i, _) if !seen.insert(*i)))
+    delivered_more_than(log, 1)
+}
+
+fn delivered_more_than(log: &[Ob], n: usize) -> bool {
+    let mut seen = std::collections::HashMap::new();
+    log.iter().any(|o| match o {
+        Ob::E(i, _) => {
+            let c = seen.entry(*i).or_insert(0usize);
+            *c += 1;
+            *c > n
+        }
+        _ => false,
+    })
 }
 
 // ================================================================== leaf behaviours
@@ -322,19 +374,58 @@ fn map_fn(g: MapF) -> BoxWrapFn {
 
 // ================================================================== test ctxt / clock
 
-pub struct TestCtxt(PropList);
+/// A user `Ctxt` that implements only the required methods (`open_push` / `open_disabled` are the trait's
+/// defaults): the ambient properties are the base list until a frame is entered; a frame is the complete
+/// property list it makes current.
+pub struct TestCtxt {
+    base: PropList,
+    cur: Mutex<Option<Vec<KV>>>,
+}
+
+#[allow(non_snake_case)]
+pub fn TestCtxt(base: PropList) -> TestCtxt {
+    TestCtxt { base, cur: Mutex::new(None) }
+}
 
 impl Ctxt for TestCtxt {
     type Current = PropList;
-    type Frame = ();
+    type Frame = Option<Vec<KV>>;
 
-    fn open_root<P: Props>(&self, _: P) -> Self::Frame {}
-    fn enter(&self, _: &mut Self::Frame) {}
-    fn with_current<R, F: FnOnce(&Self::Current) -> R>(&self, with: F) -> R {
-        with(&self.0)
+    fn open_root<P: Props>(&self, props: P) -> Self::Frame {
+        let mut v = Vec::new();
+        let _ = props.for_each(|k, val| {
+            v.push((k.get().to_string(), capture_v(&val)));
+            ControlFlow::Continue(())
+        });
+        Some(v)
     }
-    fn exit(&self, _: &mut Self::Frame) {}
+    fn enter(&self, frame: &mut Self::Frame) {
+        std::mem::swap(&mut *self.cur.lock().unwrap(), frame);
+    }
+    fn with_current<R, F: FnOnce(&Self::Current) -> R>(&self, with: F) -> R {
+        let cur = self.cur.lock().unwrap().clone();
+        match cur {
+            Some(v) => with(&PropList(v)),
+            None => with(&self.base),
+        }
+    }
+    fn exit(&self, frame: &mut Self::Frame) {
+        std::mem::swap(&mut *self.cur.lock().unwrap(), frame);
+    }
     fn close(&self, _: Self::Frame) {}
+}
+
+/// A constant random source: every span gets the same trace id (2a…2a) and span id, so that what a span
+/// pushes onto the context can be compared verbatim. (The rng plays no role in emission.)
+pub struct ConstRng;
+
+impl emit::Rng for ConstRng {
+    fn fill<A: AsMut<[u8]>>(&self, mut arr: A) -> Option<A> {
+        for b in arr.as_mut() {
+            *b = 0x2a;
+        }
+        Some(arr)
+    }
 }
 
 pub struct TestClock(Option<Timestamp>);
@@ -366,6 +457,10 @@ pub enum FNode {
     DynArc(Arc<DynF>),
     DynRef(&'static DynF),
     Internal(Box<AssertInternal<FNode>>),
+    /// library leaf filters (they record nothing; the model knows their verdict from the case line)
+    MinLvl(emit::level::MinLevelFilter),
+    PathMap(emit::level::MinLevelPathMap),
+    Kind(emit::kind::KindFilter),
 }
 
 impl Filter for FNode {
@@ -389,6 +484,9 @@ impl Filter for FNode {
             FNode::DynArc(f) => <Arc<DynF> as Filter>::matches(f, evt),
             FNode::DynRef(f) => <&'static DynF as Filter>::matches(f, evt),
             FNode::Internal(f) => <AssertInternal<FNode> as Filter>::matches(f, evt),
+            FNode::MinLvl(f) => <emit::level::MinLevelFilter as Filter>::matches(f, evt),
+            FNode::PathMap(f) => <emit::level::MinLevelPathMap as Filter>::matches(f, evt),
+            FNode::Kind(f) => <emit::kind::KindFilter as Filter>::matches(f, evt),
         }
     }
 }
@@ -480,8 +578,34 @@ fn val(s: &Sexp) -> Option<V> {
     match (t, a.len()) {
         ("i", 1) => Some(V::I(a[0].as_i64()?)),
         ("s", 1) => Some(V::S(a[0].as_string()?)),
+        ("l", 1) => Some(V::L(level(&a[0])?)),
+        ("d", 1) => Some(V::D(Shown(a[0].as_string()?))),
         _ => None,
     }
+}
+
+pub fn level(s: &Sexp) -> Option<Level> {
+    Some(match s.as_atom()? {
+        "debug" => Level::Debug,
+        "info" => Level::Info,
+        "warn" => Level::Warn,
+        "error" => Level::Error,
+        _ => return None,
+    })
+}
+
+/// `MIN DFLT` → `emit::level::min_filter(MIN)[.treat_unleveled_as(DFLT)]`
+fn min_filter(mn: &Sexp, df: &Sexp) -> Option<emit::level::MinLevelFilter> {
+    let f = emit::level::min_filter(level(mn)?);
+    Some(if df.as_atom()? == "none" { f } else { f.treat_unleveled_as(level(df)?) })
+}
+
+fn kind(s: &Sexp) -> Option<emit::Kind> {
+    Some(match s.as_atom()? {
+        "span" => emit::Kind::Span,
+        "metric" => emit::Kind::Metric,
+        _ => return None,
+    })
 }
 
 fn kv(s: &Sexp) -> Option<KV> {
@@ -618,6 +742,35 @@ fn build_f(s: &Sexp, c: &mut Counters) -> Option<FNode> {
         ("dynarc", 1) => FNode::DynArc(Arc::new(build_f(&a[0], c)?)),
         ("dynref", 1) => FNode::DynRef(leak(build_f(&a[0], c)?)),
         ("internal", 1) => FNode::Internal(Box::new(AssertInternal(build_f(&a[0], c)?))),
+        // library leaves take a leaf number (so that both sides number alike) but never record
+        ("minlvl", 2) => {
+            c.f += 1;
+            FNode::MinLvl(min_filter(&a[0], &a[1])?)
+        }
+        ("pathmap", _) => {
+            c.f += 1;
+            let mut map = emit::level::MinLevelPathMap::new();
+            for r in a {
+                let (t, ra) = r.as_tagged()?;
+                match (t, ra.len()) {
+                    ("d", 2) => map.default_min_level(min_filter(&ra[0], &ra[1])?),
+                    ("p", 3) => map.min_level(Path::new_owned_raw(ra[0].as_string()?), min_filter(&ra[1], &ra[2])?),
+                    _ => return None,
+                };
+            }
+            FNode::PathMap(map)
+        }
+        ("kind", 1) => {
+            c.f += 1;
+            FNode::Kind(match kind(&a[0])? {
+                emit::Kind::Span => emit::kind::is_span_filter(),
+                _ => emit::kind::is_metric_filter(),
+            })
+        }
+        ("kindnew", 1) => {
+            c.f += 1;
+            FNode::Kind(emit::kind::KindFilter::new(kind(&a[0])?))
+        }
         _ => return None,
     })
 }
@@ -704,6 +857,20 @@ enum Entry {
     Hook(usize),
     HookEvt(Option<String>, usize),
     Macro(usize),
+    /// `emit::debug!/info!/warn!/error!` call site of fixture `n`
+    LvlMacro(Level, usize),
+    /// `emit::evt!/debug_evt!/…/error_evt!` of fixture `n`, then `emit::emit!(evt: e)` (see `sites::EvtVia`)
+    EvtMacro(Option<Level>, usize, sites::EvtVia),
+    /// a span macro call site: form, level, whether `mdl:` is given
+    SpanMacro(sites::SpanForm, Option<Level>, bool),
+}
+
+fn opt_level(s: &Sexp) -> Option<Option<Level>> {
+    if s.as_atom()? == "plain" {
+        Some(None)
+    } else {
+        level(s).map(Some)
+    }
 }
 
 fn entry(s: &Sexp) -> Option<Entry> {
@@ -723,11 +890,37 @@ fn entry(s: &Sexp) -> Option<Entry> {
             Some(Entry::HookEvt(tpl, a[1].as_usize()?))
         }
         ("macro", 1) => Some(Entry::Macro(a[0].as_usize()?)),
+        ("lvlmacro", 2) => Some(Entry::LvlMacro(level(&a[0])?, a[1].as_usize()?)),
+        ("evtmacro", 3) => {
+            let via = match a[2].as_atom() {
+                Some("plain") => sites::EvtVia::Plain,
+                Some("tpl") => sites::EvtVia::Tpl,
+                Some(_) => return None,
+                None => match a[2].as_tagged()? {
+                    ("lvl", [l]) => sites::EvtVia::Lvl(level(l)?),
+                    _ => return None,
+                },
+            };
+            Some(Entry::EvtMacro(opt_level(&a[0])?, a[1].as_usize()?, via))
+        }
+        ("spanmacro", 3) => {
+            let form = match a[0].as_atom()? {
+                "attr" => sites::SpanForm::Attr,
+                "new" => sites::SpanForm::New,
+                _ => return None,
+            };
+            let with_mdl = match a[2].as_atom()? {
+                "mdl" => true,
+                "nomdl" => false,
+                _ => return None,
+            };
+            Some(Entry::SpanMacro(form, opt_level(&a[1])?, with_mdl))
+        }
         _ => None,
     }
 }
 
-struct OwnEvt {
+pub struct OwnEvt {
     mdl: String,
     tpl: String,
     extent: Option<Extent>,
@@ -782,7 +975,7 @@ fn parse_case<TF, TE>(
         return None;
     }
     let rt_kind = va[0].as_atom()?.to_string();
-    if !["gen", "slot", "setup"].contains(&rt_kind.as_str()) {
+    if !["gen", "slot", "setup", "initrt"].contains(&rt_kind.as_str()) {
         return None;
     }
     let entry = entry(&va[1])?;
@@ -935,9 +1128,14 @@ fn observe<E: Emitter, F: Filter, C: Ctxt, T: Clock, R: emit::Rng>(
                 return None;
             }
         }
+        Entry::LvlMacro(l, n) => sites::lvl_macro_emit(rt, *l, *n, when, own)?,
+        Entry::EvtMacro(l, n, via) => sites::evt_macro_emit(rt, *l, *n, via, when, own)?,
+        Entry::SpanMacro(form, l, with_mdl) => sites::span_macro(rt, *form, *l, *with_mdl, when, own)?,
     }
     let emit_log = take_log();
-    if delivered_twice(&emit_log) {
+    // a span fixture makes two emissions: the body's marker and the span's completion
+    let emissions = if matches!(rest.entry, Entry::SpanMacro(..)) { 2 } else { 1 };
+    if delivered_more_than(&emit_log, emissions) {
         fails.push("leaf-received-twice(emit)".into());
     }
 
@@ -989,17 +1187,23 @@ where
     let clock = TestClock(rest.clk);
     match rest.rt_kind.as_str() {
         "gen" => {
-            let rt = Runtime::build(e, f, ctxt, clock, Empty);
+            let rt = Runtime::build(e, f, ctxt, clock, ConstRng);
             observe(&rt, rest, None)
         }
         "slot" => {
             let slot = AmbientSlot::new();
-            slot.init(Runtime::build(e, f, ctxt, clock, Empty))?;
+            slot.init(Runtime::build(e, f, ctxt, clock, ConstRng))?;
             observe(slot.get(), rest, None)
+        }
+        // `Setup::init_runtime()`: the builder's components as a standalone generic runtime
+        "initrt" => {
+            let rt = emit::setup().emit_to(e).emit_when(f).with_ctxt(ctxt).with_clock(clock).with_rng(ConstRng).init_runtime();
+            observe(&rt, rest, None)
         }
         "setup" => {
             let slot = AmbientSlot::new();
-            let init = emit::setup().emit_to(e).emit_when(f).with_ctxt(ctxt).with_clock(clock).try_init_slot(&slot)?;
+            let init =
+                emit::setup().emit_to(e).emit_when(f).with_ctxt(ctxt).with_clock(clock).with_rng(ConstRng).try_init_slot(&slot)?;
             let flush = |t: Duration| init.blocking_flush(t);
             observe(init.get(), rest, Some(&flush))
         }
@@ -1009,7 +1213,7 @@ where
 
 /// `Setup::try_init_slot` on a finished builder, then the observations on the slot's erased runtime.
 fn finish_setup<TE, TF>(
-    setup: emit::Setup<TE, TF, TestCtxt, TestClock, emit::setup::DefaultRng>,
+    setup: emit::Setup<TE, TF, TestCtxt, TestClock, ConstRng>,
     rest: &Rest,
 ) -> Option<String>
 where
@@ -1055,7 +1259,8 @@ fn run_c01(line: &str) -> String {
         if rest.rt_kind != "setup" {
             return run_with(ea, fa, &rest);
         }
-        let base = emit::setup().with_ctxt(TestCtxt(PropList(rest.amb.clone()))).with_clock(TestClock(rest.clk));
+        let base =
+            emit::setup().with_ctxt(TestCtxt(PropList(rest.amb.clone()))).with_clock(TestClock(rest.clk)).with_rng(ConstRng);
         match (fb, eb) {
             (None, None) => finish_setup(base.emit_to(ea).emit_when(fa), &rest),
             (Some(fb), None) => finish_setup(base.emit_to(ea).emit_when(fa).and_emit_when(fb), &rest),
@@ -1100,7 +1305,7 @@ fn fp_e1(evt: Event<&dyn ErasedProps>) {
 }
 
 /// Number of statically typed fixtures.
-const N_STATIC: usize = 24;
+const N_STATIC: usize = 27;
 
 /// The description (F, E fields of the case line) of fixture `n`, or — with `Some(rest)` — its execution.
 /// The types below are fully static: no adapter node, no narrowing; the generic impls are instantiated at the
@@ -1357,6 +1562,44 @@ fn static_fixture(n: usize, run: Option<&Rest>) -> Option<(String, String, Optio
                 .wrap_emitter(wrapping::from_fn(map_fn(MapF::AddProp("k".into(), V::I(2)))))
                 .wrap_emitter(wrapping::from_fn(map_fn(MapF::AddProp("k".into(), V::I(1)))))
         ),
+        // library leaf filters at their own static types (they take a leaf number but record nothing)
+        24 => fixture!(
+            format!("(and (minlvl warn none) (leaf (haskey {a})))"),
+            "(and (leaf true) (wrapf (kind span) (leaf (ge 1))))".into(),
+            emit::level::min_filter(Level::Warn).and_when(lf(1, hk("a"))),
+            le(0, FlushB::Always(true))
+                .and_to(le(1, FlushB::Ge(1)).wrap_emitter(wrapping::from_filter(emit::kind::is_span_filter())))
+        ),
+        25 => fixture!(
+            format!(
+                "(or (pathmap (p {m} warn none) (p {mn} debug info) (d error none)) (kindnew metric))",
+                mn = hx("m::n")
+            ),
+            "(dynbox (wrapf (minlvl info error) fnleaf))".into(),
+            {
+                let mut map = emit::level::min_by_path_filter([
+                    (Path::new_raw("m"), emit::level::min_filter(Level::Warn)),
+                    (Path::new_raw("m::n"), emit::level::min_filter(Level::Debug).treat_unleveled_as(Level::Info)),
+                ]);
+                map.default_min_level(emit::level::min_filter(Level::Error));
+                map.or_when(emit::kind::KindFilter::new(emit::Kind::Metric))
+            },
+            Box::new(fn_leaf_e(0).wrap_emitter(wrapping::from_filter(
+                emit::level::min_filter(Level::Info).treat_unleveled_as(Level::Error)
+            ))) as Box<DynE>
+        ),
+        26 => fixture!(
+            "(internal (minlvl info none))".into(),
+            "(and fnleaf (rt (kind span) (amb) 4 (leaf true)))".into(),
+            AssertInternal(emit::level::min_filter(Level::Info)),
+            fn_leaf_e(0).and_to(Runtime::build(
+                le(1, FlushB::Always(true)),
+                emit::kind::is_span_filter(),
+                TestCtxt(PropList(vec![])),
+                TestClock(ts(4)),
+                Empty
+            ))
+        ),
         _ => None,
     }
 }
@@ -1399,7 +1642,14 @@ fn run_static(line: &str) -> String {
 
 // ================================================================== generators
 
-const KEYS: &[&str] = &["a", "b", "c", "lvl", "amb", "k"];
+const KEYS: &[&str] = &["a", "b", "c", "lvl", "amb", "k", "lvl", "evt_kind"];
+const LEVELS: &[&str] = &["debug", "info", "warn", "error"];
+/// paths registered in generated `MinLevelPathMap`s: the modules of MDLS, their parents, a sibling sharing a
+/// textual prefix, and the module paths of the call sites without `mdl:`
+const REG_PATHS: &[&str] = &[
+    "m", "m::n", "x", "app", "app::db", "ap", "m::nn", "hcore", "hcore::streams::c01", "hcore::streams::c01::sites",
+    "hcore::streams::c01::sites::sp_warn", "hcore::streams::c01::sites::sp_debug",
+];
 const MDLS: &[&str] = &["m", "m::n", "x", "app::db"];
 const TPLS: &[&str] = &["t", "hello {x}", ""];
 
@@ -1416,7 +1666,53 @@ fn g_val(r: &mut Rng) -> Sexp {
 }
 
 fn g_kv(r: &mut Rng) -> Sexp {
-    Sexp::list(vec![Sexp::str(pk(r, KEYS)), g_val(r)])
+    let k = pk(r, KEYS);
+    let v = match k {
+        // what a level filter reads: typed levels, lenient texts, junk, numbers
+        "lvl" if r.chance(4, 5) => match r.below(6) {
+            0 | 1 | 2 => Sexp::tagged("l", vec![Sexp::atom(pk(r, LEVELS))]),
+            3 => Sexp::tagged("s", vec![Sexp::str(pk(r, &["warn", "ERROR", "Information", " dbg ", "err", "wrn(3)", "x", ""]))]),
+            4 => Sexp::tagged("d", vec![Sexp::str(pk(r, &["error", "debug", "Warning", "nope"]))]),
+            _ => g_val(r),
+        },
+        // what a kind filter reads
+        "evt_kind" if r.chance(4, 5) => {
+            Sexp::tagged("s", vec![Sexp::str(pk(r, &["span", "metric", " SPAN ", "Metric", "spanx", "sp", ""]))])
+        }
+        _ => g_val(r),
+    };
+    Sexp::list(vec![Sexp::str(k), v])
+}
+
+fn g_minf(r: &mut Rng) -> (Sexp, Sexp) {
+    let df = if r.chance(1, 3) { Sexp::atom(pk(r, LEVELS)) } else { Sexp::atom("none") };
+    (Sexp::atom(pk(r, LEVELS)), df)
+}
+
+/// A library leaf filter: `min_filter`, a `MinLevelPathMap`, `is_span_filter` / `is_metric_filter` / `KindFilter::new`.
+fn g_lib_filter(r: &mut Rng) -> Sexp {
+    match r.below(8) {
+        0 | 1 | 2 => {
+            let (mn, df) = g_minf(r);
+            Sexp::tagged("minlvl", vec![mn, df])
+        }
+        3 | 4 | 5 => {
+            let n = r.below(5);
+            let regs = (0..n)
+                .map(|_| {
+                    let (mn, df) = g_minf(r);
+                    if r.chance(1, 6) {
+                        Sexp::tagged("d", vec![mn, df])
+                    } else {
+                        Sexp::tagged("p", vec![Sexp::str(pk(r, REG_PATHS)), mn, df])
+                    }
+                })
+                .collect();
+            Sexp::tagged("pathmap", regs)
+        }
+        6 => Sexp::tagged("kind", vec![Sexp::atom(pk(r, &["span", "metric"]))]),
+        _ => Sexp::tagged("kindnew", vec![Sexp::atom(pk(r, &["span", "metric"]))]),
+    }
 }
 
 fn g_ts(r: &mut Rng) -> u64 {
@@ -1455,8 +1751,12 @@ fn g_pred(r: &mut Rng) -> Sexp {
 
 const LAYERS: &[&str] = &["ref", "boxed", "shared", "dynbox", "dynarc", "dynref", "internal"];
 
-fn g_filter(r: &mut Rng, depth: usize, budget: &mut usize) -> Sexp {
+/// `lib` = how many leaves in 8 are library filters (level / kind) instead of recording user leaves.
+fn g_filter(r: &mut Rng, depth: usize, budget: &mut usize, lib: u64) -> Sexp {
     if depth == 0 || *budget == 0 || r.chance(1, 5) {
+        if r.chance(lib, 8) {
+            return g_lib_filter(r);
+        }
         return match r.below(10) {
             0 => Sexp::atom("always"),
             1 => Sexp::atom("empty"),
@@ -1467,10 +1767,10 @@ fn g_filter(r: &mut Rng, depth: usize, budget: &mut usize) -> Sexp {
     }
     *budget -= 1;
     match r.below(10) {
-        0 | 1 | 2 => Sexp::tagged("and", vec![g_filter(r, depth - 1, budget), g_filter(r, depth - 1, budget)]),
-        3 | 4 | 5 => Sexp::tagged("or", vec![g_filter(r, depth - 1, budget), g_filter(r, depth - 1, budget)]),
-        6 => Sexp::tagged("some", vec![g_filter(r, depth - 1, budget)]),
-        _ => Sexp::tagged(pk(r, LAYERS), vec![g_filter(r, depth - 1, budget)]),
+        0 | 1 | 2 => Sexp::tagged("and", vec![g_filter(r, depth - 1, budget, lib), g_filter(r, depth - 1, budget, lib)]),
+        3 | 4 | 5 => Sexp::tagged("or", vec![g_filter(r, depth - 1, budget, lib), g_filter(r, depth - 1, budget, lib)]),
+        6 => Sexp::tagged("some", vec![g_filter(r, depth - 1, budget, lib)]),
+        _ => Sexp::tagged(pk(r, LAYERS), vec![g_filter(r, depth - 1, budget, lib)]),
     }
 }
 
@@ -1545,7 +1845,7 @@ fn g_emitter(r: &mut Rng, depth: usize, budget: &mut usize, t: u128, nested: &mu
         6 => Sexp::tagged("some", vec![g_emitter(r, depth - 1, budget, t, nested)]),
         7 | 8 | 9 => {
             let mut fb = (*budget).min(4);
-            let f = g_filter(r, depth.min(3), &mut fb);
+            let f = g_filter(r, depth.min(3), &mut fb, 1);
             let tag = if r.chance(1, 3) { "wrapfdyn" } else { "wrapf" };
             Sexp::tagged(tag, vec![f, g_emitter(r, depth - 1, budget, t, nested)])
         }
@@ -1556,7 +1856,7 @@ fn g_emitter(r: &mut Rng, depth: usize, budget: &mut usize, t: u128, nested: &mu
         13 if *nested < 2 => {
             *nested += 1;
             let mut fb = (*budget).min(4);
-            let f = g_filter(r, depth.min(3), &mut fb);
+            let f = g_filter(r, depth.min(3), &mut fb, 1);
             let tag = if r.chance(1, 3) { "slot" } else { "rt" };
             Sexp::tagged(tag, vec![f, g_amb(r), g_clk(r), g_emitter(r, depth - 1, budget, t, nested)])
         }
@@ -1593,16 +1893,76 @@ fn kv_sexp(kv: &KV) -> Sexp {
         match &kv.1 {
             V::I(i) => Sexp::tagged("i", vec![Sexp::num(*i)]),
             V::S(s) => Sexp::tagged("s", vec![Sexp::str(s)]),
+            V::L(l) => Sexp::tagged("l", vec![Sexp::atom(l.to_string())]),
+            V::D(s) => Sexp::tagged("d", vec![Sexp::str(&s.0)]),
         },
     ])
 }
 
-/// VIA, WHEN, EVT for a random case.
-fn g_via_when_evt(r: &mut Rng, depth: usize) -> (Sexp, Sexp, Sexp) {
-    let rt_kind = *r.pick(&["gen", "gen", "gen", "slot", "setup"]);
+fn g_lvl_or_plain(r: &mut Rng) -> Sexp {
+    if r.chance(1, 5) {
+        Sexp::atom("plain")
+    } else {
+        Sexp::atom(pk(r, LEVELS))
+    }
+}
+
+/// VIA, WHEN, EVT for a random case, and how many leaves in 8 of the case's filters should be library filters
+/// (the level-macro call sites are mostly run against level filters).
+fn g_via_when_evt(r: &mut Rng, depth: usize) -> (Sexp, Sexp, Sexp, u64) {
+    g_via_when_evt_from(r, depth, 0)
+}
+
+/// `first` = the lowest entry-point class drawn (12 = only the level-macro call sites).
+fn g_via_when_evt_from(r: &mut Rng, depth: usize, first: u64) -> (Sexp, Sexp, Sexp, u64) {
+    let rt_kind = *r.pick(&["gen", "gen", "gen", "slot", "setup", "gen", "slot", "setup", "initrt"]);
     let mut tpl = pk(r, TPLS).to_string();
     let mut prefix = Vec::new();
-    let (entry, hookish) = match r.below(12) {
+    let mut mdl = pk(r, MDLS).to_string();
+    let mut lib = 1;
+    let mut span = false;
+    let mut allow_when = true;
+    let (entry, hookish) = match first + r.below(18 - first) {
+        // the level emit macros, the *_evt! macros + emit!(evt:), the level span macros
+        12 | 13 => {
+            let fx = macro_fixtures();
+            let n = r.usize(fx.len());
+            tpl = fx[n].tpl.to_string();
+            prefix = (fx[n].props)().iter().map(kv_sexp).collect();
+            if n == 1 && r.chance(1, 3) {
+                mdl = sites::MODULE.to_string();
+            }
+            lib = 6;
+            (Sexp::tagged("lvlmacro", vec![Sexp::atom(pk(r, LEVELS)), Sexp::num(n)]), true)
+        }
+        14 | 15 => {
+            let fx = macro_fixtures();
+            let n = *r.pick(&[0usize, 1, 1, 3]);
+            tpl = fx[n].tpl.to_string();
+            prefix = (fx[n].props)().iter().map(kv_sexp).collect();
+            if n == 1 && r.chance(1, 3) {
+                mdl = sites::MODULE.to_string();
+            }
+            let via = match r.below(4) {
+                0 | 1 => Sexp::atom("plain"),
+                2 => Sexp::atom("tpl"),
+                _ => Sexp::tagged("lvl", vec![Sexp::atom(pk(r, LEVELS))]),
+            };
+            lib = 6;
+            (Sexp::tagged("evtmacro", vec![g_lvl_or_plain(r), Sexp::num(n), via]), true)
+        }
+        16 | 17 => {
+            let lvl = g_lvl_or_plain(r);
+            let form = Sexp::atom(pk(r, &["attr", "new"]));
+            let with_mdl = r.chance(3, 4);
+            if !with_mdl {
+                mdl = sites::span_module(level(&lvl));
+                allow_when = false;
+            }
+            span = true;
+            lib = 6;
+            (Sexp::tagged("spanmacro", vec![form, lvl, Sexp::atom(if with_mdl { "mdl" } else { "nomdl" })]), true)
+        }
         0 => (Sexp::atom("core"), false),
         1 | 2 => (Sexp::atom("rt"), false),
         3 => (Sexp::atom("rtemit"), false),
@@ -1620,14 +1980,20 @@ fn g_via_when_evt(r: &mut Rng, depth: usize) -> (Sexp, Sexp, Sexp) {
             (Sexp::tagged("macro", vec![Sexp::num(n)]), true)
         }
     };
-    let when = if hookish && r.chance(3, 5) {
+    let when = if hookish && allow_when && r.chance(3, 5) {
         let mut b = 6;
-        Sexp::tagged("when", vec![g_filter(r, depth.min(4), &mut b)])
+        Sexp::tagged("when", vec![g_filter(r, depth.min(4), &mut b, lib)])
     } else {
         Sexp::atom("nowhen")
     };
-    let evt = Sexp::tagged("evt", vec![Sexp::str(pk(r, MDLS)), Sexp::str(&tpl), g_ext(r), g_props(r, prefix)]);
-    (Sexp::tagged("via", vec![Sexp::atom(rt_kind), entry]), when, evt)
+    let evt = if span {
+        // the span call sites fix the template, the captured property and (a span has none yet) the extent
+        let n = Sexp::list(vec![Sexp::str("n"), Sexp::tagged("i", vec![Sexp::num(sites::SPAN_N)])]);
+        Sexp::tagged("evt", vec![Sexp::str(&mdl), Sexp::str(sites::SPAN_TPL), Sexp::atom("none"), Sexp::tagged("props", vec![n])])
+    } else {
+        Sexp::tagged("evt", vec![Sexp::str(&mdl), Sexp::str(&tpl), g_ext(r), g_props(r, prefix)])
+    };
+    (Sexp::tagged("via", vec![Sexp::atom(rt_kind), entry]), when, evt, lib)
 }
 
 fn gen_c01(r: &mut Rng, tier: Tier, n: usize) -> Vec<String> {
@@ -1642,10 +2008,29 @@ fn gen_c01(r: &mut Rng, tier: Tier, n: usize) -> Vec<String> {
         let mut fb = if tier == Tier::Thorough { 40 } else { 14 };
         let mut eb = if tier == Tier::Thorough { 60 } else { 22 };
         // every 10th case has a trivial filter or emitter so that the other side is seen in isolation
-        let f = if i % 10 == 3 { Sexp::atom("empty") } else { g_filter(r, depth, &mut fb) };
+        let (via, when, evt, lib) = g_via_when_evt(r, depth);
+        let f = if i % 10 == 3 { Sexp::atom("empty") } else { g_filter(r, if lib > 1 { depth.min(3) } else { depth }, &mut fb, lib) };
         let mut nested = 0;
         let e = if i % 10 == 7 { Sexp::tagged("leaf", vec![Sexp::atom("true")]) } else { g_emitter(r, depth, &mut eb, t, &mut nested) };
-        let (via, when, evt) = g_via_when_evt(r, depth);
+        out.push(Sexp::tagged("c01", vec![via, f, e, g_amb(r), g_clk(r), when, evt, Sexp::num(t)]).to_string());
+    }
+    out
+}
+
+/// Level-macro call sites only, mostly against level filters, small destinations.
+fn gen_c17_macro(r: &mut Rng, _tier: Tier, n: usize) -> Vec<String> {
+    let r = &mut r.fork();
+    let mut out = Vec::with_capacity(n);
+    for _ in 0..n {
+        let t = g_timeout(r);
+        let (via, when, evt, _) = g_via_when_evt_from(r, 3, 12);
+        let mut fb = 6;
+        let fd = 1 + r.usize(3);
+        let f = g_filter(r, fd, &mut fb, 7);
+        let mut eb = 4;
+        let mut nested = 2; // no nested runtimes
+        let ed = 1 + r.usize(2);
+        let e = g_emitter(r, ed, &mut eb, t, &mut nested);
         out.push(Sexp::tagged("c01", vec![via, f, e, g_amb(r), g_clk(r), when, evt, Sexp::num(t)]).to_string());
     }
     out
@@ -1660,7 +2045,7 @@ fn gen_static(r: &mut Rng, _tier: Tier, n: usize) -> Vec<String> {
         let f = Sexp::parse(&fd).expect("fixture filter description");
         let e = Sexp::parse(&ed).expect("fixture emitter description");
         let t = g_timeout(r);
-        let (via, when, evt) = g_via_when_evt(r, 4);
+        let (via, when, evt, _) = g_via_when_evt(r, 4);
         let case = Sexp::tagged("c01", vec![via, f, e, g_amb(r), g_clk(r), when, evt, Sexp::num(t)]);
         out.push(Sexp::tagged("static", vec![Sexp::num(k), case]).to_string());
     }
